@@ -243,8 +243,10 @@ def backoffNext (c : Cfg) (backoff cnt : Nat) : Nat × Option Nat :=
   else if cnt ≥ c.batch then (backoff >>> backoffShift, none)
   else (backoff, none)
 
-/-- The transition function: `step c s l = some s'` iff action `l` is enabled in `s`. -/
-def step (c : Cfg) (s : State) : Lbl → Option State
+/-- The transition function, parametrised by the two conditions of the collector loop (`lc` = the
+`while` condition, `cc` = the guard of the consume block) so that the loop of the code before the
+repair of DESIGN §7 #2 can be stated too (`stepOld`). -/
+def stepWith (lc cc : State → Bool) (c : Cfg) (s : State) : Lbl → Option State
   -- ---------------- retire
   | .callRetire id =>
     if s.calls id = .none then some { s with calls := upd s.calls id .tick } else none
@@ -300,7 +302,7 @@ def step (c : Cfg) (s : State) : Lbl → Option State
     if s.stop = .join ∧ s.cpc = .done then some { s with stop := .returned } else none
   -- ---------------- collector
   | .consumeBegin =>
-    if s.cpc = .top ∧ loopCond s ∧ consumeCond s then
+    if s.cpc = .top ∧ lc s ∧ cc s then
       some { s with cpc := .pop1, tasks := [], index := 0 }
     else none
   | .pop n =>
@@ -315,7 +317,7 @@ def step (c : Cfg) (s : State) : Lbl → Option State
       if canPop s n lim then some { popCells s n with cpc := .preScan } else none
     | _ => none
   | .scanBegin =>
-    if s.cpc = .preScan ∨ (s.cpc = .top ∧ loopCond s ∧ ¬ consumeCond s) then
+    if s.cpc = .preScan ∨ (s.cpc = .top ∧ lc s ∧ ¬ cc s) then
       some { s with cpc := .scan, must := pinnedNow s, floor := floorNow s }
     else none
   | .scanEnd m =>
@@ -338,7 +340,22 @@ def step (c : Cfg) (s : State) : Lbl → Option State
       else none
     | _ => none
   | .exit =>
-    if s.cpc = .top ∧ ¬ loopCond s then some { s with cpc := .done } else none
+    if s.cpc = .top ∧ ¬ lc s then some { s with cpc := .done } else none
+
+/-- The transition function: `step c s l = some s'` iff action `l` is enabled in `s`. -/
+def step (c : Cfg) (s : State) (l : Lbl) : Option State := stepWith loopCond consumeCond c s l
+
+/-- the collector loop before the repair: `while (running) { if (index == tasks.size()) {…} … }` -/
+def loopCondOld (s : State) : Bool := s.running
+def consumeCondOld (s : State) : Bool := decide (s.index = s.tasks.length)
+def stepOld (c : Cfg) (s : State) (l : Lbl) : Option State := stepWith loopCondOld consumeCondOld c s l
+
+/-- run a sequence of actions (used by the non-vacuity examples and the counterexample) -/
+def runL (st : Cfg → State → Lbl → Option State) (c : Cfg) : State → List Lbl → Option State
+  | s, [] => some s
+  | s, l :: ls => match st c s l with
+    | some s' => runL st c s' ls
+    | none => none
 
 /-- Any enabled action of any actor: all interleavings, any number of clients, slots, retirements. -/
 def Step (c : Cfg) (s s' : State) : Prop := ∃ l, step c s l = some s'
